@@ -145,7 +145,8 @@ CORRUPTIONS: Dict[str, List[Tuple[str, Callable[[Trace], Optional[Trace]], str]]
         ("close not announced", only_if(_no_fault, flip(lambda e: e["e"] == "wire" and e.get("kind") == "head" and e.get("close") is True, "close", False)), "close-not-announced"),
     ],
     "C07": [
-        ("closed earlier", only_if(lambda tr: _no_fault(tr) and not any(e["e"] == "app_start" for e in tr),
+        ("closed earlier", only_if(lambda tr: _no_fault(tr) and not any(e["e"] == "app_start" for e in tr) and
+                                   any(e["e"] == "t_close" and e.get("now", 0) >= 400 and _before_winddown(tr, i) for i, e in enumerate(tr)),
                                    flip(lambda e: e["e"] == "t_close" and e.get("now", 0) >= 400, "now", 3)), "closed-early"),
         ("never closed", only_if(lambda tr: _no_fault(tr) and not any(e["e"] == "app_start" for e in tr) and
                                  any(e["e"] == "t_close" and e.get("now", 0) >= 400 and _before_winddown(tr, i) for i, e in enumerate(tr)),
